@@ -1117,8 +1117,8 @@ func runWitness(c *mon.Case) {
 }
 
 func main() {
-	mon.SetNote("rule", "phase: case = 1..3 reference ORFs (ATG + 9..48 sense codons + stop) and 3..40 sequences = random flank + copy of a reference (verbatim, or substitutions 1-15 % and codon indels, first codon kept) + random flank, optionally on the reverse strand / lower case; options translate, reverse, cut-end, 3 genetic codes drawn at random; run with 1 and with 2..8 workers. orf: 1..6 sequences built from start/stop rich pieces so that ORFs in different frames overlap, both strands. noref: Phase(nil) vs Phase(longest ORF). sched (-race): the same sets handed in through a SeqBag/Sequence wrapper that records dispatch / Translate / Clone / result / closed events and perturbs the schedule (Gosched bursts, 50-1500 us sleeps, channel buffer 0/1/50) for workers 1,2,3,8,16,32 x GOMAXPROCS 1,2,4,16. faults (-race): every fault position k of sets of 3..8 sequences: a too short sequence at row k, the k-th Translate failing, the k-th Clone yielding a sequence whose translation fails. Non-trivial = every phase case (all contain mutated or flanked copies); for sched the distinct (worker count, arrival order) pairs are what is counted as distinct; for orf a set holding at least one ORF.")
-	mon.SetNote("assumptions", "reference translation = NCBI tables 1, 2, 5 typed in lib/ref/gencode.go;; stops of the ORF search are TAA, TAG, TGA whatever the genetic code (as documented for LongestORF), case folded, U as T;; without cut-end the trimmed nucleotides must run to the end of the sequence, with cut-end any end is accepted (the statement only fixes the start);; 'exact copy' is only asserted for upper-case sequences holding the first reference verbatim exactly once over the strands searched;; every generated copy keeps its ATG, so that a positive-scoring anchored alignment always exists (pure junk sequences are outside the quantifier);; the Removed flag is not part of the statement and is only counted;; deadlock verdicts come from a goroutine dump taken after 2000 scheduler yields + 100 ms without any wrapper event (logical probe), never from a deadline")
+	mon.SetNote("rule", "phase: case = 1..3 reference ORFs (ATG + 9..48 sense codons + stop) and 3..40 sequences = random flank + copy of a reference (verbatim, or substitutions 1-15 % and codon indels, first codon kept) + random flank, optionally on the reverse strand / lower case; options translate, reverse, cut-end, 3 genetic codes drawn at random; run with 1 and with 2..8 workers. orf: 1..6 sequences built from start/stop rich pieces so that ORFs in different frames overlap, both strands. noref: Phase(nil) vs Phase(longest ORF). sched (-race): the same sets handed in through a SeqBag/Sequence wrapper that records dispatch / Translate / Clone / result / closed events and perturbs the schedule (Gosched bursts, 50-1500 us sleeps, channel buffer 0/1/50) for workers 1,2,3,8,16,32 x GOMAXPROCS 1,2,4,16. faults (-race): every fault position k of sets of 3..8 sequences: a too short sequence at row k, the k-th Translate failing, the k-th Clone yielding a sequence whose translation fails. Non-trivial = every phase case (all contain mutated or flanked copies); for sched the distinct (worker count, arrival order) pairs are what is counted as distinct; for orf a set holding at least one ORF."+cliRule)
+	mon.SetNote("assumptions", "reference translation = NCBI tables 1, 2, 5 typed in lib/ref/gencode.go;; stops of the ORF search are TAA, TAG, TGA whatever the genetic code (as documented for LongestORF), case folded, U as T;; without cut-end the trimmed nucleotides must run to the end of the sequence, with cut-end any end is accepted (the statement only fixes the start);; 'exact copy' is only asserted for upper-case sequences holding the first reference verbatim exactly once over the strands searched;; every generated copy keeps its ATG, so that a positive-scoring anchored alignment always exists (pure junk sequences are outside the quantifier);; the Removed flag is not part of the statement and is only counted;; deadlock verdicts come from a goroutine dump taken after 2000 scheduler yields + 100 ms without any wrapper event (logical probe), never from a deadline"+cliAssumptions)
 	mon.Floor("translate:true", 200)
 	mon.Floor("translate:false", 200)
 	mon.Floor("reverse:true", 200)
@@ -1135,6 +1135,7 @@ func main() {
 	mon.Floor("faults:kind:0", 20)
 	mon.Floor("faults:kind:1", 20)
 	mon.Floor("faults:kind:2", 5)
+	cliFloors()
 	mon.Main("C16", []mon.Sub{
 		{Name: "witness", Quick: 3, Thorough: 3, Run: runWitness},
 		{Name: "phase", Quick: 3000, Thorough: 150000, Run: runPhase},
@@ -1142,5 +1143,6 @@ func main() {
 		{Name: "noref", Quick: 600, Thorough: 30000, Run: runNoRef},
 		{Name: "sched", Quick: 240, Thorough: 12000, Race: true, Run: runSched},
 		{Name: "faults", Quick: 18 * 24, Thorough: 18 * 24 * 10, Race: true, Run: runFaults},
+		{Name: "cli", Quick: 150, Thorough: 1500, Serial: true, Run: runCli},
 	})
 }
